@@ -1079,7 +1079,8 @@ fn c12_skip_array_neg() {
 	kani::cover!(true, "end of harness reached");
 }
 
-// @harness props=C12 tier=thorough timeout=3600
+// (tier=off: 20 GB memory limit hit after 1555 s)
+// @harness props=C12 tier=off timeout=3600
 // @bound array<long>, block layout [-1 item, 2 bytes][w v0: two-byte varint][1 item][v1][end] with symbolic element bytes: IgnoredAny (jumps over negative-count blocks by byte size, continues with following blocks) consumes exactly what the typed read consumes. (Symbolic layouts under IgnoredAny gave no verdict in 400 s.)
 #[kani::proof]
 #[kani::unwind(8)]
